@@ -356,7 +356,7 @@ def c13_async_jobs(tier, seed):
     from .. import families
     # first graph: a producer much faster than its consumers (every recorded step consumes several messages: a truncated record must still
     # hold all messages its recorded steps consumed - seeded change C13-a capped the message record by max_records)
-    fam = [families.fast_chain(random.Random(seed * 7 + 1))]
+    fam = [families.fast_chain(random.Random(seed * 7 + 1)), families.overrun_freq(random.Random(seed * 7 + 2))]
     for i, cfg in enumerate(fam + _graphs(seed + 1300, ng)):
         hist = _hist_step(6) + _hist_run(5)
         # reference: everything recorded
